@@ -20,7 +20,8 @@ CONSTANTS Outcomes,   \* subset of AllOutcomes used by this model instance
 
 AllOutcomes == {"ok200", "redir302", "raise404", "ret404", "raise503", "raise422inst",
                 "uncaughtVE", "uncaughtKE", "nbraise404", "nbret403",
-                "nohdr204"}      \* a Response that carries no Content-Type header at all (204 No Content)
+                "nohdr204",
+                "uncaughtSC"}    \* an uncaught application exception that happens to carry a status_code attribute      \* a Response that carries no Content-Type header at all (204 No Content)
 
 \* SR / SX: the stats application's own read and reset routes (they are routes too: their requests are counted)
 Routes == {"R1", "R2", "R3", "NULL", "SR", "SX"}
@@ -40,14 +41,15 @@ Bucket(o) == CASE o = "ok200"      -> "200"
                [] o = "uncaughtVE" -> "ValueError"
                [] o = "uncaughtKE" -> "KeyError"
                [] o = "nohdr204"   -> "204"
+               [] o = "uncaughtSC" -> "UpstreamError"     \* its TYPE (it is not an HTTPException), whatever attributes it has
 
-Buckets == {"200", "204", "302", "403", "404", "405", "422", "503", "ValueError", "KeyError"}
+Buckets == {"200", "204", "302", "UpstreamError", "403", "404", "405", "422", "503", "ValueError", "KeyError"}
 
 \* what the client sees for an outcome (used by C15 as well)
 StatusOf(o) == CASE o = "ok200" -> 200 [] o = "redir302" -> 302
                  [] o \in {"raise404", "ret404", "nbraise404"} -> 404
                  [] o = "nbret403" -> 403 [] o = "raise503" -> 503 [] o = "raise422inst" -> 422
-                 [] o \in {"uncaughtVE", "uncaughtKE"} -> 500
+                 [] o \in {"uncaughtVE", "uncaughtKE", "uncaughtSC"} -> 500
                  [] o = "nohdr204" -> 204
 
 \* A request: kind "a" (/a/o1/o2), "b" (/b/o1/o2), "m" (GET /m: wrong method),
